@@ -26,6 +26,74 @@ Definition obs : Type := oret * option snap.
 
 Record case := mkcase { c_n : N; c_ops : list nop; c_obs : list obs; c_final : list snap }.
 
+
+(** small numbers by name: the case printer writes [d7] instead of a numeral (numeral notations are the slow part of
+    reading a batch file) *)
+Definition d0 : N := 0%N.
+Definition d1 : N := 1%N.
+Definition d2 : N := 2%N.
+Definition d3 : N := 3%N.
+Definition d4 : N := 4%N.
+Definition d5 : N := 5%N.
+Definition d6 : N := 6%N.
+Definition d7 : N := 7%N.
+Definition d8 : N := 8%N.
+Definition d9 : N := 9%N.
+Definition d10 : N := 10%N.
+Definition d11 : N := 11%N.
+Definition d12 : N := 12%N.
+Definition d13 : N := 13%N.
+Definition d14 : N := 14%N.
+Definition d15 : N := 15%N.
+Definition d16 : N := 16%N.
+Definition d17 : N := 17%N.
+Definition d18 : N := 18%N.
+Definition d19 : N := 19%N.
+Definition d20 : N := 20%N.
+Definition d21 : N := 21%N.
+Definition d22 : N := 22%N.
+Definition d23 : N := 23%N.
+Definition d24 : N := 24%N.
+Definition d25 : N := 25%N.
+Definition d26 : N := 26%N.
+Definition d27 : N := 27%N.
+Definition d28 : N := 28%N.
+Definition d29 : N := 29%N.
+Definition d30 : N := 30%N.
+Definition d31 : N := 31%N.
+Definition d32 : N := 32%N.
+Definition d33 : N := 33%N.
+Definition d34 : N := 34%N.
+Definition d35 : N := 35%N.
+Definition d36 : N := 36%N.
+Definition d37 : N := 37%N.
+Definition d38 : N := 38%N.
+Definition d39 : N := 39%N.
+Definition d40 : N := 40%N.
+Definition d41 : N := 41%N.
+Definition d42 : N := 42%N.
+Definition d43 : N := 43%N.
+Definition d44 : N := 44%N.
+Definition d45 : N := 45%N.
+Definition d46 : N := 46%N.
+Definition d47 : N := 47%N.
+Definition d48 : N := 48%N.
+Definition d49 : N := 49%N.
+Definition d50 : N := 50%N.
+Definition d51 : N := 51%N.
+Definition d52 : N := 52%N.
+Definition d53 : N := 53%N.
+Definition d54 : N := 54%N.
+Definition d55 : N := 55%N.
+Definition d56 : N := 56%N.
+Definition d57 : N := 57%N.
+Definition d58 : N := 58%N.
+Definition d59 : N := 59%N.
+Definition d60 : N := 60%N.
+Definition d61 : N := 61%N.
+Definition d62 : N := 62%N.
+Definition d63 : N := 63%N.
+
 Definition nn := N.to_nat.
 Definition to_mop (o : nop) : mop :=
   match o with
